@@ -97,11 +97,21 @@ def mk_case(ctx, st, idx, nschemes):
         schemes = [(idx + ctx.seed) % nschemes]
     else:
         schemes = list(range(nschemes))
-    return {'mode': 'svc', 'caller': st['caller'], 'steps': steps, 'variants': variants, 'schemes': schemes}
+    # the initial state (and its views) is the same for every history of one caller: the filter-combination suite is run on
+    # it for the first few histories of each caller (so that every id scheme gets it), afterwards only on changed states
+    key = str(st['caller'])
+    n = _seen_callers.get(key, 0)
+    _seen_callers[key] = n + 1
+    return {'mode': 'svc', 'caller': st['caller'], 'steps': steps, 'variants': variants, 'schemes': schemes,
+            'initCombos': n < 2 * nschemes}
+
+
+_seen_callers = {}
 
 
 def run(ctx):
     tier = ctx.tier
+    _seen_callers.clear()
     maxops = 2   # bound of the exhaustive part in both tiers (thorough: more grant sets / org-user pairs / id schemes, deeper simulation)
     # 1. the design: invariants / action property on the model, every action taken (vacuity guard)
     r = ctx.tlc_must_pass('AuthzSvc', f'AuthzSvc.MC_{tier}.cfg', timeout=2400, coverage=True)
@@ -126,6 +136,26 @@ def run(ctx):
     ctx.exhaustive = True
     ctx.extra_cov['single_permission_callers'] = len(ncallers)
     ctx.extra_cov['single_permission_histories_replayed'] = len(cases)
+    # 2b. structured multi-permission callers (fixed list in the cfg), every history to the bound: {read org o} + one org-scoped
+    #     or type-wide permission; token creators that hold only one element of a two-element grant; read-only and all-access
+    #     tokens of an org.  These reach the paths a single permission cannot (org-restricted listings, VerifyPermissions on lists).
+    fmax = 1 if tier == 'quick' else 2
+    gf = ctx.tlc_must_pass('AuthzSvc', f'AuthzSvc.Fixed_{tier}.cfg', timeout=2400, dump=True)
+    fcases = []
+    for st in ctx.dump_states(gf):
+        if not (st['stopped'] or len(st['hist']) == fmax + 1):
+            continue
+        fcases.append(mk_case(ctx, st, len(fcases), 3))
+    if not fcases:
+        raise vlib.Inconclusive('no histories for the structured callers')
+    part = sum(1 for c in fcases for s in c['steps'][1:] if s['a'] == 'CreateAuth' and len(s['grant']) >= 2
+               and not s['exp']['authz'])
+    if part == 0:
+        raise vlib.Inconclusive('no refused token request with a grant list of length >= 2')
+    resf, linesf = ctx.replay(binary, fcases, timeout=2400)
+    ctx.absorb(resf, linesf)
+    ctx.extra_cov['structured_caller_histories_replayed'] = len(fcases)
+    ctx.extra_cov['refused_token_requests_with_2_element_grants'] = part
     # 3. longer histories of seeded multi-permission callers (simulation; denied calls may occur anywhere)
     ncall, nsim, depth = (12, 1500, 6) if tier == 'quick' else (60, 5000, 7)   # nsim is per TLC worker
     callers = sample_callers(ctx.rng, ncall)
@@ -149,9 +179,10 @@ def run(ctx):
     ctx.extra_cov['multi_permission_callers'] = len(callers)
     ctx.extra_cov['multi_permission_behaviours_generated'] = nsim
     ctx.extra_cov['multi_permission_histories_replayed'] = len(dcases)
-    nok = sum(1 for c in cases + dcases for st in c['steps'][1:] if st['exp']['ok'])
-    nden = sum(1 for c in cases + dcases for st in c['steps'][1:] if not st['exp']['authz'])
-    ngrant = sum(1 for c in cases + dcases for st in c['steps'][1:] if st['a'] == 'CreateAuth' and st['exp']['ok'])
+    allc = cases + fcases + dcases
+    nok = sum(1 for c in allc for st in c['steps'][1:] if st['exp']['ok'])
+    nden = sum(1 for c in allc for st in c['steps'][1:] if not st['exp']['authz'])
+    ngrant = sum(1 for c in allc for st in c['steps'][1:] if st['a'] == 'CreateAuth' and st['exp']['ok'])
     if nok == 0 or nden == 0 or ngrant == 0:
         raise vlib.Inconclusive(f'vacuous histories: successful calls={nok} denied calls={nden} tokens created={ngrant}')
     ctx.extra_cov['calls_expected_to_succeed'] = nok
@@ -162,7 +193,10 @@ def run(ctx):
                 'Delete calls on buckets, orgs, users and authorizations (CreateAuthorization over the listed grant sets and org/user '
                 'pairs) up to MaxOps, a failed call ends the history. Sampled part: seeded callers with 2-3 permissions, simulated '
                 'histories in which denied calls may occur anywhere. After every call the store is dumped through the unwrapped '
-                'services and every Find* of the wrapped services is run as the caller; both wrapper generations; id concretisations '
+                'services and every Find* of the wrapped services is run as the caller - by id, by name, unfiltered, and with every single field '
+                'and every pair of fields of the filter structs over all known ids/names, consistent or not (only a leak is a violation '
+                'there); a refused token request is sent in every rotation of its grant list and of the reverse; structured 2-13-'
+                'permission callers (fixed list) to the bound; both wrapper generations; id concretisations '
                 '(product generators / numerically colliding ids across types). non-trivial = history with a successful mutating call, '
                 'or a caller that sees some but not all resources of a type')
     ctx.assumptions += [
